@@ -388,7 +388,7 @@ func (w *world) stepStable(t fataler, q reqSpec) (res result, o outcome, ok bool
 			continue
 		}
 		if msg != "" {
-			t.Fatalf("%s", msg)
+			t.Fatalf("%s\n[diagnostics] configured (option) %q\n[diagnostics] configured (getter) %q\n[diagnostics] key table of the API now: %v", msg, trueKeys(), keyString(cfgKeys()), api.VerifAPIKeyTable())
 		}
 		return res, o, true
 	}
